@@ -6,6 +6,7 @@ package main
 // sync.(RW)Mutex methods are specified over it in stubs/std.spec.
 
 import (
+	"os"
 	"fmt"
 	"go/token"
 	"go/types"
@@ -225,6 +226,9 @@ func (ft *FuncTr) abstractCall(st *State, at *Term, sig *types.Signature, fn *ss
 	}
 	if fn == nil {
 		ft.w.assume("function values and interface methods called from lock-discipline-only functions do not take the guarded locks (" + shortFuncName(ft.fn) + ")")
+	}
+	if os.Getenv("GOVC_DEBUG_ABS") != "" {
+		fmt.Fprintf(os.Stderr, "abstracted call in %s: %s at %s\n", shortFuncName(ft.fn), name, ft.posStr(ft.curPos))
 	}
 	old := ft.h.nextID(st)
 	ft.h.havocAll(st)
